@@ -110,10 +110,16 @@ SCHEMAS = [
     ("prefix_items", {"type": "array", "prefixItems": [{"type": "integer"}, {"enum": ["x", "y"]}],
                       "items": {"type": "boolean"}, "minItems": 1, "maxItems": 4}),
     ("free_object", {"type": "object"}),
+    # two multipleOf values whose least common multiple does not fit 32 bits (was: silent wrap, see known_findings fixed:)
+    ("lcm_overflow", {"type": "integer", "allOf": [{"multipleOf": 65536}, {"multipleOf": 65537}]}),
     ("ws_flexible", {"x-guidance": {"whitespace_flexible": True}, "type": "object",
                      "properties": {"a": {"type": "array", "items": {"type": "integer"}, "maxItems": 2}},
                      "required": ["a"], "additionalProperties": False}),
 ]
+
+
+# candidate instance texts offered in addition to the generated ones
+EXTRA_INSTANCES = {"lcm_overflow": ["65536", "131072", "0", "4295032832"]}
 
 
 def repo_samples():
